@@ -1272,3 +1272,41 @@ def b_nc_remove(tier, rnd):
                 cases.append((NoteContainer(list(st)), Note(nm, o) if nm != "X" else Note("A", o), -1))
     return {"rule": "8 containers (0..5 notes, octave doublings, enharmonic twins) x 7 names x octaves {-1, 3, 4, 5} by name, "
                     "x octaves {3, 4} by Note", "cases": cases}
+
+
+@battery("track_add_bar")
+def b_track_add_bar(tier, rnd):
+    from mingus.containers.track import Track
+    from mingus.containers.bar import Bar
+    cases = []
+    for n in (0, 1, 2, 5):
+        for meter in ((4, 4), (3, 4), (0, 0)):
+            t = Track()
+            for i in range(n):
+                t.bars.append(Bar("C", (4, 4)))
+            b = Bar("G", meter)
+            cases.append((t, b))
+            t2 = Track()
+            t2.bars = [b] * n      # the same bar object already in the track: it is still appended
+            cases.append((t2, b))
+    return {"rule": "tracks of 0, 1, 2, 5 bars x 3 meters of the new bar, incl. a bar object the track already holds", "cases": cases}
+
+
+@battery("comp_add_track")
+def b_comp_add_track(tier, rnd):
+    from mingus.containers.composition import Composition
+    from mingus.containers.track import Track
+    from mingus.containers.bar import Bar
+    cases = []
+    for n in (0, 1, 3):
+        for kind in ("new", "equal", "same", "bar"):
+            c = Composition()
+            ts = [Track() for _ in range(n)]
+            for t in ts:
+                c.add_track(t)
+            x = Track() if kind in ("new", "equal") else (ts[0] if ts and kind == "same" else Bar() if kind == "bar" else Track())
+            if kind == "new":
+                x.add_bar(Bar("D", (3, 4)))
+            cases.append((c, x))
+    return {"rule": "compositions of 0, 1, 3 tracks x {a new track, a track equal to one it holds, the same object again, "
+                    "a Bar (refused)}", "cases": cases}
